@@ -30,6 +30,10 @@ def main():
     if "--tier" in sys.argv:
         tier = sys.argv[sys.argv.index("--tier") + 1]
         args = [a for a in args if a != tier]
+    override = None
+    if "--props" in sys.argv:
+        override = sys.argv[sys.argv.index("--props") + 1].split(",")
+        args = [a for a in args if a != ",".join(override)]
     ids = args or sorted(p.name for p in (VERIF / "seeded").iterdir() if (p / "patch.diff").exists())
     dirty = sh(["git", "-C", REPO, "status", "--porcelain", "--untracked-files=no"]).stdout.strip()
     if dirty:
@@ -40,6 +44,8 @@ def main():
         d = VERIF / "seeded" / sid
         meta = json.loads((d / "meta.json").read_text())
         props = meta["property"] if isinstance(meta["property"], list) else [meta["property"]]
+        if override:
+            props = override
         r = sh(["git", "-C", REPO, "apply", str(d / "patch.diff")])
         if r.returncode != 0:
             r = sh(["git", "-C", REPO, "apply", "--3way", str(d / "patch.diff")])
